@@ -402,7 +402,7 @@ func c09Rollover(c *Ctx) {
 	// (b) coherence of the retention used for the deletion
 	calls := []core.Call{}
 	for _, call := range core.Calls(fl) {
-		if call.Common.StaticCallee() == fdb {
+		if core.SameFn(core.Callee(call.Common), fdb) {
 			calls = append(calls, call)
 		}
 	}
